@@ -109,3 +109,40 @@ contract(
         types={"out": "bytearray"},
     )},
 )
+
+
+# ---- line level: the comment stripper leaves a written value line intact ---------------------------------------------------
+# line = P ++ F ++ S where P ("\tname = ") and S (the line end) contain no quote, backslash or comment character and F is
+# the written value: quote ++ E ++ quote, or the bare E when the value needs no quotes.  What _strip_comments needs to know
+# about E is that it is WELL ESCAPED: reading it with the one-bit automaton st ("the previous byte was an unescaped
+# backslash"; st is DEFINED by the first two clauses) there is no unescaped quote, no dangling backslash at the end, and - in
+# the bare form - no unescaped comment character.  That _escape_value produces such an E (for the bare form: from a value
+# that needs no quotes) is the ASSUMED part, checked exhaustively by the bounded stand-in together with ESC_SPEC.
+ST = "ufi('esc_st', {j})"
+WELL_ESC = [
+    f"{ST.format(j='0')} == 0 and {ST.format(j='len(E)')} == 0",
+    f"all({ST.format(j='j + 1')} == (1 if ({ST.format(j='j')} == 0 and E[j] == 92) else 0) for j in range(0, len(E)))",
+    f"all({ST.format(j='j')} != 0 or E[j] != 34 for j in range(0, len(E)))",
+]
+NO_BARE_COMMENT = f"all({ST.format(j='j')} != 0 or (E[j] != 35 and E[j] != 59) for j in range(0, len(E)))"
+_NOSPECIAL = "all({s}[t] != 34 and {s}[t] != 92 and {s}[t] != 35 and {s}[t] != 59 for t in range(0, len({s})))"
+def _strip_contract(tag, q, shape, extra_req, open_inv):
+    jj = f"(_it1 - len(P) - {q})"
+    contract(
+        prop=["C20"], file=F, func=f"_strip_comments#{tag}",
+        params={"line": "bytes"}, ghost_params={"E": "bytes", "P": "bytes", "S": "bytes"}, returns="bytes",
+        requires=WELL_ESC + [_NOSPECIAL.format(s="P"), _NOSPECIAL.format(s="S")] + shape + extra_req,
+        raises={},
+        ensures=["len(result) == len(line)", "all(result[t] == line[t] for t in range(0, len(line)))"],
+        loops={1: dict(invariant=[open_inv, f"escaped == (0 <= {jj} and {jj} <= len(E) and {ST.format(j=jj)} == 1)"])},
+    )
+# (shape facts are indexed by the position in `line`, so that they instantiate at line[i] without arithmetic matching)
+_strip_contract("quoted", 1,
+                ["len(line) == len(P) + len(E) + 2 + len(S)", "all(line[t] == P[t] for t in range(0, len(P)))", "line[len(P)] == 34",
+                 "all(line[t] == E[t - len(P) - 1] for t in range(len(P) + 1, len(P) + 1 + len(E)))", "line[len(P) + 1 + len(E)] == 34",
+                 "all(line[t] == S[t - len(P) - len(E) - 2] for t in range(len(P) + len(E) + 2, len(line)))"],
+                [], "string_open == (len(P) < _it1 and _it1 <= len(P) + 1 + len(E))")
+_strip_contract("bare", 0,
+                ["len(line) == len(P) + len(E) + len(S)", "all(line[t] == P[t] for t in range(0, len(P)))",
+                 "all(line[t] == E[t - len(P)] for t in range(len(P), len(P) + len(E)))", "all(line[t] == S[t - len(P) - len(E)] for t in range(len(P) + len(E), len(line)))"],
+                [NO_BARE_COMMENT], "not string_open")
